@@ -341,3 +341,91 @@ func condText(v ssa.Value) string {
 	}
 	return describe(v)
 }
+
+// C12.R7: the notification URI the consumer registered at session creation is
+// the one a recharge notifies.  The member is per subscriber and optional in
+// every request, so a write on the update / release / recharge paths replaces
+// the registered URI by whatever the later request happens to carry - typically
+// the empty string - and the recharge then notifies nobody.  Who-may-write: no
+// function reachable from those entry points stores to ChfUe.NotifyUri.
+func checkNotifyUriWriters(c *Ctx, r *Report, rule string) {
+	var roots []*ssa.Function
+	for _, n := range []string{"Processor.ChargingDataUpdate", "Processor.ChargingDataRelease", "Processor.NotifyRecharge"} {
+		roots = append(roots, c.fn("internal/sbi/processor", n))
+	}
+	reach, pred := c.reach(roots)
+	n := 0
+	for _, f := range c.ModFuncs {
+		eachInstr(f, func(_ *ssa.BasicBlock, _ int, ins ssa.Instruction) {
+			st, ok := ins.(*ssa.Store)
+			if !ok {
+				return
+			}
+			fa, ok := st.Addr.(*ssa.FieldAddr)
+			if !ok || !typeIs(fa.X.Type(), ctxPath, "ChfUe") || fieldName(fa) != "NotifyUri" {
+				return
+			}
+			n++
+			key := fmt.Sprintf("%s|write of ChfUe.NotifyUri #%d", fnKey(f), n)
+			if reach[f] && nonEmptyGuarded(f, st) {
+				r.proven(rule, key, posOf(c, st), "re-registration: the stored value is tested to be non-empty on the edge that reaches the store")
+				return
+			}
+			if reach[f] {
+				path := fnKey(f)
+				for g := pred[f]; g != nil; g = pred[g] {
+					path = fnKey(g) + " -> " + path
+				}
+				r.viol(rule, key, posOf(c, st), "the registered notification URI is overwritten on the update / release / recharge path ("+path+"): notifyUri is optional in those requests, so the URI registered at creation is replaced (usually by the empty string) and a later recharge notifies nobody")
+				return
+			}
+			r.proven(rule, key, posOf(c, st), "written only where a session is created (not reachable from update, release or recharge)")
+		})
+	}
+	if n == 0 {
+		r.viol(rule, "writers", "", "no store to ChfUe.NotifyUri found: nothing registers the consumer's notification URI")
+	}
+}
+
+// nonEmptyGuarded: the store is reached only over the true edge of `v != ""`
+// (or the false edge of `v == ""`) with v the value stored.
+func nonEmptyGuarded(f *ssa.Function, st *ssa.Store) bool {
+	same := func(a, b ssa.Value) bool {
+		if a == b {
+			return true
+		}
+		pa, ok1 := pathOf(a)
+		pb, ok2 := pathOf(b)
+		return ok1 && ok2 && pa.Root == pb.Root && strings.Join(pa.Elems, ".") == strings.Join(pb.Elems, ".") && len(pa.Elems) > 0
+	}
+	for _, b := range f.Blocks {
+		if len(b.Instrs) == 0 {
+			continue
+		}
+		ifi, ok := b.Instrs[len(b.Instrs)-1].(*ssa.If)
+		if !ok {
+			continue
+		}
+		bo, ok := ifi.Cond.(*ssa.BinOp)
+		if !ok || (bo.Op != token.NEQ && bo.Op != token.EQL) {
+			continue
+		}
+		var v ssa.Value
+		if s, ok := constString(bo.Y); ok && s == "" {
+			v = bo.X
+		} else if s, ok := constString(bo.X); ok && s == "" {
+			v = bo.Y
+		}
+		if v == nil || !same(v, st.Val) {
+			continue
+		}
+		succ := b.Succs[0]
+		if bo.Op == token.EQL {
+			succ = b.Succs[1]
+		}
+		if edgeDominates(b, succ, st.Block()) {
+			return true
+		}
+	}
+	return false
+}
